@@ -45,18 +45,23 @@ static const char* DIRS[] = {"N", "NE", "E", "SE", "S", "SW", "W", "NW"};
 static const int DROW[] = {-1, -1, 0, 1, 1, 1, 0, -1};
 static const int DCOL[] = {0, 1, 1, 1, 0, -1, -1, -1};
 
-static void model_case(Case& c) {
+static void model_case_impl(Case& c, int l0pass, std::vector<std::string>* snaps) {
     Rng& rng = c.rng;
     std::ostream& out = c.out;
     static const int shapes[][2] = {{1, 1}, {1, 3}, {2, 2}, {2, 3}, {3, 1}, {3, 2}, {1, 2}, {4, 2}};
     int si = rng.in(0, 7);
     int rows = shapes[si][0], cols = shapes[si][1];
-    bool sei = rng.coin(55);
+    // l0pass: 0 = ordinary case; 1 = SI pass, 2 = SEI pass with latency 0 of the L0 = SI differential
+    // (both passes consume the random stream identically: every choice is made as for SI)
+    bool sei = l0pass ? false : rng.coin(55);
     int latency = sei ? rng.in(0, 3) : 0;
     int ne = sei ? latency + 1 : 0;
+    bool sei_model = sei || l0pass == 2;
+    if (l0pass == 2) ne = 1;
     int nm = rng.in(1, 4);
     HostState h(rows, cols, ne, nm);
     h.randomize(rng, sei);
+    sei = sei_model;
     // keep infection small so that the number of dispersers stays below the scripted uniforms
     for (int a = 0; a < rows; a++) for (int b = 0; b < cols; b++) {
         int excess = 0;
@@ -263,10 +268,42 @@ static void model_case(Case& c) {
             out << "\n";
         }
         out << "hp.plan " << step << " => " << (e.empty() ? "ok" : e) << " " << (trace.empty() ? "-" : trace) << "\n";
+        if (snaps) {
+            std::ostringstream sn; sn << (e.empty() ? "ok" : e);
+            for (int x = 0; x < rows; x++) for (int y2 = 0; y2 < cols; y2++) {
+                sn << " " << h.s(x, y2) << "," << h.i(x, y2) << "," << h.r(x, y2) << "," << h.th(x, y2) << "," << h.died(x, y2) << ";";
+                for (auto& m2 : h.m) sn << m2(x, y2) << ",";
+                sn << ";" << dispersers(x, y2) << "," << established(x, y2);
+            }
+            sn << " outside=" << outside.size();
+            snaps->push_back(sn.str());
+        }
         if (!e.empty()) { threw = true; stats.add("step_threw"); }
     }
     pops::verif::trace_hook() = nullptr;
     c.nontrivial = nsteps >= 3 && h.suitable.size() >= 1;
+}
+
+static void model_case(Case& c) { model_case_impl(c, 0, nullptr); }
+
+// C05: with L = 0 the SEI model produces exactly the SI trajectory for the same seeds, inputs,
+// kernel results and uniforms - whole runs of Model::run_step compared step by step.
+static void l0_case(Case& c) {
+    Case c1(0, 0), c2(0, 0);
+    c1.rng = c.rng; c2.rng = c.rng; c1.index = c2.index = c.index + 2;  // never a F18 / F26 witness index
+    std::vector<std::string> a, b;
+    model_case_impl(c1, 1, &a);
+    model_case_impl(c2, 2, &b);
+    c.out << c1.out.str() << c2.out.str();
+    size_t n = std::min(a.size(), b.size());
+    bool same = a.size() == b.size();
+    size_t first_diff = n;
+    for (size_t k = 0; k < n; k++) if (a[k] != b[k]) { same = false; first_diff = k; break; }
+    c.out << "hp.l0 " << a.size() << " => " << (same ? "equal" : "differ") ;
+    if (!same && first_diff < n) c.out << " step=" << first_diff << " SI:" << a[first_diff].substr(0, 300) << " SEI0:" << b[first_diff].substr(0, 300);
+    c.out << "\n";
+    stats.add("l0_pairs"); stats.add("l0_steps", (long)a.size());
+    c.nontrivial = a.size() >= 3;
 }
 
 int main(int argc, char** argv) {
@@ -277,6 +314,7 @@ int main(int argc, char** argv) {
     long count = argc > 4 ? std::stol(argv[4]) : 100;
     if (!selftest_uniform()) { std::cerr << "SELFTEST FAILED: libstdc++ uniform_real_distribution does not consume one 64-bit value\n"; return 3; }
     if (mode == "model") run_cases("h_model", mode, seed, first, count, model_case);
+    if (mode == "l0") run_cases("h_model", mode, seed, first, count, l0_case);
     stats.dump("h_model");
     return 0;
 }
